@@ -16,7 +16,7 @@ RULE = (
     "generated streams of 1..n command/response pairs over all command codes with sessions, parameter encryption, failed "
     "responses, the same code back to back with different configurations, streams ending after a command; per-file corpus "
     "streams; stream events must equal the concatenation of the individual decodes (response decoded with the preceding "
-    "command's code and encryption request), every individual decode must equal the reference interpreter's, and events_to_objs must yield one equal object per message in order; distinct = "
+    "command's code and encryption request), every individual decode must equal the reference interpreter's, and events_to_objs (fed with a list, an iterator, the live stream decoder) must yield one equal object per message in order; distinct = "
     "distinct (sequence of (code, sessions, decrypt, encrypt, failure)) streams"
 )
 ASSUMPTIONS = ["message boundaries and pairing come from the reference interpreter, not from the decoder under test"]
@@ -26,7 +26,7 @@ ANCHORS = probes.STREAM
 def plan(tier, seed):
     q = tier == "quick"
     n = 8 if q else 16
-    shards = [dict(name=f"gen{i}", kind="gen", n=6 if q else 140, max_pairs=6 if q else 10) for i in range(n)]
+    shards = [dict(name=f"gen{i}", kind="gen", n=12 if q else 140, max_pairs=6 if q else 10) for i in range(n)]
     shards.append(dict(name="carried-state", kind="carried", n=15 if q else 300))
     nc = 4 if q else 8
     shards += [dict(name=f"corpus{i}", kind="corpus", start=i, step=nc * (6 if q else 1)) for i in range(nc)]
@@ -100,6 +100,16 @@ def check_stream(case, rec):
         if o != single:
             rec.violation("objects", "unequal", f"{case.short()}\nobject #{i} of the stream != object of the individual decode", case.replay())
             return
+    # the conversion takes any iterable: an iterator over the events and the live stream decoder give the same objects
+    try:
+        o_iter = list(events_to_objs(iter([e.raw for e in ts.events])))
+        o_live = list(events_to_objs(TR.open_decode("CommandResponseStream", case.d, True)))
+        rec.count("object_feeds_compared")
+        for label, other in (("an iterator", o_iter), ("the live decoder", o_live)):
+            if len(other) != len(objs) or any(a != b for a, b in zip(other, objs)):
+                rec.violation("objects", f"feed:{label.split()[-1]}", f"{case.short()}\nevents_to_objs fed with {label} yields {len(other)} objects that differ from the {len(objs)} obtained from a list", case.replay())
+    except Exception as e:
+        rec.violation("objects", "feed-raises:" + TR.mechanism(e), f"{case.short()}\nevents_to_objs fed with an iterator / the live decoder raised {type(e).__name__}: {e}", case.replay())
     rec.count("objects_compared", len(objs))
     rec.sample(dict(case=case.short(), messages=len(ref.messages), events=len(ts.events)), cap=3)
 
